@@ -49,6 +49,9 @@ pub(crate) struct EmbeddedReadHandle<T: TypeConfig> {
     sm: Arc<T::SM>,
     lease: Arc<ReadLease>,
     pub(crate) cmd_tx: mpsc::Sender<d_engine_core::ClientCmd>,
+    /// Server default policy, enforced when clients may not override it
+    /// (`read_consistency.allow_client_override = false`). `None` = overrides allowed.
+    enforced_policy: Option<ReadConsistencyPolicy>,
     _phantom: PhantomData<fn() -> T>,
 }
 
@@ -58,6 +61,7 @@ impl<T: TypeConfig> Clone for EmbeddedReadHandle<T> {
             sm: Arc::clone(&self.sm),
             lease: Arc::clone(&self.lease),
             cmd_tx: self.cmd_tx.clone(),
+            enforced_policy: self.enforced_policy.clone(),
             _phantom: PhantomData,
         }
     }
@@ -73,8 +77,20 @@ impl<T: TypeConfig> EmbeddedReadHandle<T> {
             sm,
             lease,
             cmd_tx,
+            enforced_policy: None,
             _phantom: PhantomData,
         }
+    }
+
+    /// Apply the server's read configuration: when client overrides are disallowed every read is
+    /// routed under `default_policy`, whatever policy the caller asked for.
+    pub(crate) fn with_read_config(
+        mut self,
+        default_policy: ReadConsistencyPolicy,
+        allow_client_override: bool,
+    ) -> Self {
+        self.enforced_policy = (!allow_client_override).then_some(default_policy);
+        self
     }
 
     /// Single-key read.  Convenience wrapper around [`Self::get_batch`].
@@ -103,6 +119,9 @@ impl<T: TypeConfig> EmbeddedReadHandle<T> {
         client_id: u32,
         timeout: Duration,
     ) -> ClientApiResult<Vec<Option<Bytes>>> {
+        // Overrides disallowed: the fast path must not serve a weaker policy than the server default.
+        let consistency = self.enforced_policy.clone().unwrap_or(consistency);
+
         match consistency {
             ReadConsistencyPolicy::EventualConsistency => {
                 if let Ok(values) = self.sm.get_multi(keys) {
